@@ -17,61 +17,7 @@
 (* (stream, module, test) with exactly its parameters, window and region;  *)
 (* unknown modules and test names contribute nothing.                      *)
 (***************************************************************************)
-EXTENDS Integers, Sequences, FiniteSets, TLC
-
-NA == -999999999
-DefaultStream == "_stream"
-
-KnownTests ==
-    [ qartod |-> {"gross_range_test", "spike_test", "location_test", "climatology_test", "rate_of_change_test",
-                  "flat_line_test", "attenuated_signal_test", "density_inversion_test", "aggregate"},
-      argo   |-> {"pressure_increasing_test", "speed_test"},
-      axds   |-> {"valid_range_test"} ]
-Known(e) == e.module \in DOMAIN KnownTests /\ e.test \in KnownTests[e.module]
-
-Layouts  == {"contexts", "streams", "bare_streams", "bare_modules"}
-Carriers == {"dict", "odict", "yaml_str", "json_str", "yaml_io", "json_io", "yaml_path_str", "yaml_path",
-             "json_path_str", "json_path", "xr_global", "xr_vars", "nc_path"}
-
-HasWindow(c) == c.win # <<NA, NA>>
-HasRegion(c) == c.region # "none"
-NStreams(c)  == Len(c.streams)
-
-\* which layouts / carriers can express a configuration at all
-Expressible(cfg, layout, carrier) ==
-    /\ Len(cfg) >= 1
-    /\ CASE layout = "contexts"     -> TRUE
-         [] layout = "streams"      -> Len(cfg) = 1
-         [] layout = "bare_streams" -> Len(cfg) = 1 /\ ~HasWindow(cfg[1]) /\ ~HasRegion(cfg[1])
-         [] layout = "bare_modules" -> Len(cfg) = 1 /\ ~HasWindow(cfg[1]) /\ ~HasRegion(cfg[1]) /\ NStreams(cfg[1]) = 1
-    \* per-variable attributes can only spell a bare stream mapping
-    /\ carrier = "xr_vars" => layout = "bare_streams"
-
-RegionKey(r) == IF r = "none" THEN "none" ELSE "polyA"      \* both GeoJSON forms denote the same polygon
-
-\* the calls a configuration denotes (layout only decides the stream id of the module layout)
-Calls(cfg, layout) ==
-    UNION { UNION { { [stream |-> IF layout = "bare_modules" THEN DefaultStream ELSE cfg[k].streams[s].id,
-                       module |-> e.module, test |-> e.test, params |-> e.params,
-                       win |-> cfg[k].win, region |-> RegionKey(cfg[k].region)] :
-                        e \in { cfg[k].streams[s].entries[j] : j \in { j \in 1..Len(cfg[k].streams[s].entries) :
-                                                                     Known(cfg[k].streams[s].entries[j]) } } }
-                    : s \in 1..NStreams(cfg[k]) }
-            : k \in 1..Len(cfg) }
-
-NCalls(cfg) ==      \* how many Call objects: one per known entry (identical calls are not merged)
-    LET Cnt(k, s) == Cardinality({ j \in 1..Len(cfg[k].streams[s].entries) : Known(cfg[k].streams[s].entries[j]) })
-        RECURSIVE SumS(_, _)
-        SumS(k, s) == IF s = 0 THEN 0 ELSE Cnt(k, s) + SumS(k, s - 1)
-        RECURSIVE SumK(_)
-        SumK(k) == IF k = 0 THEN 0 ELSE SumS(k, NStreams(cfg[k])) + SumK(k - 1)
-    IN  SumK(Len(cfg))
-
-\* the configuration with every unknown module / test name removed
-StripUnknown(cfg) ==
-    [k \in 1..Len(cfg) |->
-        [cfg[k] EXCEPT !.streams = [s \in 1..NStreams(cfg[k]) |->
-            [cfg[k].streams[s] EXCEPT !.entries = SelectSeq(cfg[k].streams[s].entries, Known)]]]]
+EXTENDS ConfigLoadOps
 
 -----------------------------------------------------------------------------
 VARIABLES cfgv,     \* the abstract configuration being loaded
